@@ -69,13 +69,16 @@ TRUSTED = [
     "b'' -> readLoop n (frames of sampwidth*channels bytes: the wave module), str(size)+dfmt / byte_order+dfmt -> format "
     "parts, struct.Struct -> mkStruct, s.pack(*block) -> StructStr.pack (item count checked, elements by leElem), "
     "blocks(seq, size, padval=p) -> C08's blocks with hop = size (property C08), `byte_order is None` -> OrderArg.isNone, "
-    "{...}.get(byte_order, sys.byteorder) -> orderGet; a construct outside this grammar is a TranslationError = broken "
-    "obligation.  The translator is itself checked on every run (extra check translator-selftest: 18 edited copies of the "
-    "source text must change the translation or be refused, 3 harmless edits must not, the unchanged text must reproduce "
+    "{...}.get(byte_order, sys.byteorder) -> orderGet; for the body of chunks.array: a mutable array.array of fixed size is "
+    "a list of cells (each the machine byte string of its item) updated with List.set, array.array(dfmt, [0] * size) -> "
+    "arrNew, `chunk[idx] = v` -> arrSet (conversion by leElem false in machine order, may raise, then the array is unchanged), "
+    "array.array(dfmt, <array>) -> arrCopy, .byteswap() -> arrByteswap, tobytes(a) (getattr ... or tostring) -> arrTobytes, the "
+    "closure export() reads the array as it is at the call, `for el in seq:` with yields -> forGen (state = array and idx, "
+    "one pass raises before its first yield), `for i in xrange(lo, hi)` -> forRange with hi - lo passes; a construct outside this grammar is a TranslationError = broken "
+    "obligation.  The translator is itself checked on every run (extra check translator-selftest: 26 edited copies of the "
+    "source text must change the translation or be refused, 4 harmless edits must not, the unchanged text must reproduce "
     "the committed file) and, independently, by the differential tie that runs the hand model the theorems equate it with",
-    "NOT under the translator (hand-written, tied by the differential correspondence only): the body of chunks.array apart "
-    "from its byte-order table and swap test (working array, export(), fill and pad loops: sha1 of the AST pinned in "
-    "c18_tr.ARRAY_REST_SHA1, an edit is a broken obligation until the model is re-read), the laziness / life-cycle machines "
+    "NOT under the translator (hand-written, tied by the differential correspondence only): the laziness / life-cycle machines "
     "(wavNext, wavTake, Model/C18Res), the RIFF reader, parameter defaults of chunks.*",
     "call layer (ALV/Model/C18Call.lean): the binding of WavStream(*pos, **kw) to (wave_file, keep=False) is C08's "
     "model of Python's argument binding, the truth value of what was passed for keep is PyV.truthy (Float != 0.0 for "
@@ -135,7 +138,8 @@ ASSUMPTIONS = [
 MANIFEST = {
     "technique": ("Lean 4 machine-checked proof over an executable model + source translator harness/props/c18_tr.py (the "
                   "_unpackers table as program values, WavStream.__init__ / block_reader / sample_reader / data_generator, "
-                  "chunks.struct and the byte-order table of chunks.array are regenerated from the source with ast into "
+                  "chunks.struct and the whole of chunks.array (byte-order table, swap, working array, export(), fill loop, pad loop, last "
+                  "chunk) are regenerated from the source with ast into "
                   "lean/ALV/Gen/C18Src.lean on every run and proved equal to the model: theorems src_*_is_model) + "
                   "differential correspondence with the implementation"),
     "text": ("Lean 4 theorems, for all inputs: two's-complement and unsigned pack/unpack round trip on the full range of "
